@@ -9,19 +9,20 @@
 //	run  <blob> <pc> <gas> <r0,..,r12> <hp> <hl> <pages> <tab>
 //	psim <code-blob> <gaslimit>
 //
-// <blob>  = program blob (A.2) in hex; <gas> signed decimal; <pages> = "-" or ';'-joined
+// <blob>  = program blob (A.2) in hex; <gas> signed decimal; <pages> = "-", a preset "@A"/"@B", or ';'-joined
 // "idx:acc[:off=hex]*" (acc 0 = present but inaccessible, 1 = read-only, 2 = read-write);
 // <tab> = size of the host-call table (id 0 = the real gas call, 1..tab-1 = logging no-ops).
 //
 // output of run:  <exit> <pc> <r0,..,r12> <gas> <hp> <hostlog> <pages>
 //
-//	exit = halt | panic | oog | fault:<addr> | deblob-panic
+//	exit = halt | panic | oog | fault:<addr> | deblob-panic ; <pages> is "=" when memory is exactly as at the start
 //
 // output of psim: <gas-used> <oog|panic|halt:<hex or "-">>
 package verifpvm
 
 import (
 	"fmt"
+	"runtime/debug"
 	"sort"
 	"strconv"
 	"strings"
@@ -31,15 +32,26 @@ import (
 	h "github.com/New-JAMneration/JAM-Protocol/internal/verifh"
 )
 
+func init() { debug.SetGCPercent(400) }
+
 type PageSpec struct {
 	Idx  uint32
 	Acc  int
 	Data map[int]byte
 }
 
+// page-map presets, so that the case lines of the sweeps stay short
+var PagePresets = map[string]string{
+	"@A": "16:2:0=1122334455667788:4088=8899aabbccddeeff;17:1:0=0102030405060708:4090=a1a2a3a4a5a6;18:0:0=5a5a5a5a:4092=a5a5a5a5;20:2:4095=7f;32:2:8=ff",
+	"@B": "16:2:0=1122334455667788:4088=8899aabbccddeeff;17:1:0=0102030405060708:4090=a1a2a3a4a5a6;20:2:4095=7f;32:2:8=ff",
+}
+
 func parsePages(s string) []PageSpec {
 	if s == "-" || s == "" {
 		return nil
+	}
+	if p, ok := PagePresets[s]; ok {
+		s = p
 	}
 	var out []PageSpec
 	for _, ps := range strings.Split(s, ";") {
@@ -62,10 +74,10 @@ func FmtPage(idx uint32, acc int, val []byte) string {
 	var sb strings.Builder
 	fmt.Fprintf(&sb, "%d:%d", idx, acc)
 	i := 0
-	for i < len(val) {
-		if val[i] == 0 {
-			i++
-			continue
+	for {
+		i = nextNonZero(val, i)
+		if i >= len(val) {
+			break
 		}
 		j := i
 		for j < len(val) && val[j] != 0 {
@@ -185,12 +197,17 @@ func runCase(t []string) string {
 		}
 		mem.Pages[p.Idx] = &PVM.Page{Value: val, Access: PVM.MemoryAccess(p.Acc)}
 	}
+	before := fmtMem(mem)
 	var log []uint64
 	host := PVM.NewHost(&prog, regs, mem, PVM.Gas(gas), PVM.HostCallArgs{}, hostTable(tab, &log))
 	res := host.HostCall(pc, 0)
 	hpo, _ := PVM.VerifC01Heap(res.VM.Memory)
+	after := fmtMem(res.VM.Memory)
+	if after == before {
+		after = "=" // memory (page set, access classes, every byte) exactly as at the start
+	}
 	return fmt.Sprintf("%s %d %s %d %d %s %s", fmtExit(res.ExitReason), res.Counter, fmtRegs(*res.VM.Registers),
-		int64(*res.VM.Gas), hpo, fmtLog(log), fmtMem(res.VM.Memory))
+		int64(*res.VM.Gas), hpo, fmtLog(log), after)
 }
 
 // StdBlob wraps a code blob into the standard program format (A.37) used by psim:
